@@ -7,6 +7,7 @@ import JinjaV.Wire.Loop
 import JinjaV.Wire.Stream
 import JinjaV.Wire.Macro
 import JinjaV.Wire.Sandbox
+import JinjaV.Wire.Undefined
 
 open JinjaV
 
@@ -21,6 +22,7 @@ def dispatch (line : String) : Sx :=
     | "stream" => Wire.Stream.handle args
     | "macro" => Wire.Macro.handle args
     | "sbx" => Wire.Sandbox.handle args
+    | "undef" => Wire.Undefined.handle args
     | "sbx-unblocked" => Wire.Sandbox.handleUnblocked args
     | _ => Sx.bad
   | _ => Sx.bad
